@@ -640,6 +640,33 @@ example : WfTags classSample ∧ classSample.name = Generated.TagAlphabet.startT
     (expandOf (grammarWorld classSample).table.canResolve 2 (classSample.children.head!) [⟨"file_input".toList, none⟩, ⟨"class_def".toList, none⟩]).length = 3 := by
   decide +kernel
 
+/-! ## the remaining `DSN` functions (`left`, `right`, `shift`, `root`, `parent`) act on the element list
+
+`pySliceTo l k` / `pySliceFrom l k` are Python's `l[:k]` / `l[k:]` for any integer `k`. -/
+
+/-- `DSN.left(path, k)` keeps `elements[:k]`, `DSN.right(path, k)` keeps `elements[-k:]` (everything for `k = 0`), on every
+    encoded path and every integer `k`. -/
+theorem dsn_left_right (p : Path) (hp : WfPath p) (k : Int) :
+    dsnLeft (encodePath p) k = encodePath (pySliceTo p k) ∧ dsnRight (encodePath p) k = encodePath (pySliceFrom p (-k)) :=
+  ⟨dsnLeft_encode p hp k, dsnRight_encode p hp k⟩
+
+/-- `DSN.shift(path, k)`: `elements[k:]` for `k > 0`, `elements[:k]` for `k < 0`, the path itself for `k = 0`. -/
+theorem dsn_shift (p : Path) (hp : WfPath p) (k : Int) :
+    dsnShift (encodePath p) k = encodePath (if k > 0 then pySliceFrom p k else if k < 0 then pySliceTo p k else p) :=
+  dsnShift_encode p hp k
+
+/-- `DSN.root` is the first element, `DSN.parent` the last but one. -/
+theorem dsn_root_parent (a : Elem) (p : Path) (b c : Elem) (hp : WfPath (a :: p)) (hq : WfPath (p ++ [b, c])) :
+    dsnRoot (encodePath (a :: p)) = .ok (encodeElem a) ∧ dsnParent (encodePath (p ++ [b, c])) = .ok (encodeElem b) :=
+  ⟨dsnRoot_encode a p hp, dsnParent_encode p b c hq⟩
+
+example : dsnLeft "r.a[12].b".toList 2 = "r.a[12]".toList ∧ dsnLeft "r.a[12].b".toList (-1) = "r.a[12]".toList ∧
+    dsnRight "r.a[12].b".toList 1 = ['b'] ∧ dsnRight "r.a[12].b".toList 0 = "r.a[12].b".toList ∧
+    dsnRight "r.a[12].b".toList (-1) = "a[12].b".toList ∧ dsnShift "r.a[12].b".toList (-2) = ['r'] ∧
+    (dsnRoot "r.a[12].b".toList).toOption = some ['r'] ∧ (dsnParent "r.a[12].b".toList).toOption = some "a[12]".toList ∧
+    (dsnParent ['r']).toOption = none ∧ (dsnLeftBy "::".toList "a::b:::c".toList 2).toOption = some "a::b".toList := by
+  decide +kernel
+
 /-- `EntryPath.valid` of an encoded path: it has at least one element. -/
 theorem path_valid (p : Path) (hp : WfPath p) : EP.valid (encodePath p) = !p.isEmpty :=
   EP.valid_encode p hp
